@@ -59,6 +59,17 @@ Theorem C10_readd_while_old_held :
 Proof. intros c os h i r e s. exact (release_old_keeps_cache s h i r e (reach_inv c os)). Qed.
 Print Assumptions C10_readd_while_old_held.
 
+(* Capacity eviction: an LRU cache created with MaxEntries = c > 0 never holds more than c values, after any
+   history (so "capacity eviction" in C10_exactly_once is really exercised: the (c+1)-th distinct key evicts
+   the least recently used one); the capacity never changes. *)
+Theorem C10_capacity_bound :
+  forall c os, cap (exec (init c) os) = c /\ (c <> 0 -> length (lru (exec (init c) os)) <= c).
+Proof.
+  intros c os. destruct (reach_capinv c os) as [Hc Hi]. split; [exact Hc|].
+  intros Hn. unfold capinv in Hi. rewrite Hc in Hi. exact (Hi Hn).
+Qed.
+Print Assumptions C10_capacity_bound.
+
 (* Non-vacuity: a TTL history where value 0 is expired while held, key 0 re-added as value 1, the old holder
    releases with evict: value 0 finalised exactly once, value 1 still cached and held, not finalised. *)
 Example C10_nonvacuous :
